@@ -1,4 +1,17 @@
-(* Proofs about `llfree_get` of the sequential upper-allocator model (Upper.v). *)
+(* Proofs about `llfree_get` of the sequential upper-allocator model (Upper.v).
+   Contents:
+   - Section C13: `llfree_get_class` (class of a successful get; any policy, no invariant)
+   - Section LgetLow: `lget_low_spec` (the lower attempt through the `lower_facts` interface)
+   - `ordered_policy` and its policy facts; `upper_inv_needs_demote_trans` (why `pol_demote_trans`)
+   - Section Frame: `*_frame` / `*_low` (configuration of locals, default class, number of trees, `low`)
+   - Section AnyStruct: structure of steal_any / demote_any results
+   - Section GetInv: the postcondition `get_post` / `GP` of every allocation attempt and the helper lemmas
+     `steal_global_G`, `get_local_G`, `reserve_or_steal_G`, `steal_local_G`, `demote_local_G`,
+     `search_best_GP`, `search_and_reserve_GP`, `get_at_GP`, `llfree_get_GP`
+   - Section GetTheorems: `llfree_get_inv` (C09), `llfree_get_spec` (C02), `llfree_get_visible`,
+     `llfree_get_not_hidden` (C15), `llfree_get_frame`
+   - Module GetExamples: non-vacuity by vm_compute.
+   Hypotheses: wf_geom g, lower_facts g, pol_refl_match policy, pol_demote_trans policy. *)
 From LLF Require Import Base Row Bitfield Lower Spec Sorted Upper UpperInvDef LowerFacts UpperPrims UpperGetLoops.
 From Coq Require Import Permutation PeanoNat.
 
